@@ -47,11 +47,30 @@ def shred(rows, row_opt, elem_opt):
     return rep, de, vals
 
 
-STRUCT_NULL = "<struct null>"       # row marker: the struct group that holds the LIST / MAP group is null in this row
+STRUCT_NULL = "<struct null>"       # row marker: an ancestor struct group of the LIST / MAP group is null in this row
+# "<struct null>" = the outermost optional ancestor is null (level 0); "<struct null k>" = the first k optional
+# ancestors are there and the next one is null (level k)
+
+
+def is_struct_null(r):
+    return isinstance(r, str) and r.startswith("<struct null")
+
+
+def struct_null_level(r):
+    return 0 if r == STRUCT_NULL else int(r[len("<struct null "):-1])
+
+
+def col_structs(col):
+    """ancestor groups of the LIST / MAP group, outermost first: [{"name", "opt"[, "rep"]}]"""
+    if col.get("structs"):
+        return list(col["structs"])
+    return [col["struct"]] if col.get("struct") else []
 
 
 def struct_off(leaf):
-    """number of optional struct ancestors of the LIST/MAP group (0 or 1 here)"""
+    """number of non-required ancestor groups of the LIST/MAP group"""
+    if leaf.get("struct_opts") is not None:
+        return sum(1 for o in leaf["struct_opts"] if o)
     return 1 if leaf.get("struct_opt") else 0
 
 
@@ -60,18 +79,19 @@ def max_def_leaf(leaf):
 
 
 def shred_leaf(lrows, leaf):
-    """Dremel shredding of a LIST / MAP leaf that may sit below one struct group
+    """Dremel shredding of a LIST / MAP leaf that may sit below struct groups
     (optional group s { <LIST or MAP group> }): every level of the one-level shape moves up by the number of
-    optional ancestors; a null struct is level 0."""
+    optional ancestors; a null ancestor is the level of the optional ancestors defined above it."""
     off = struct_off(leaf)
+    cont = leaf.get("max_rep", 1)          # repetition level of a continuation entry (2 below a repeated ancestor)
     rep, de, vals = [], [], []
     for r in lrows:
-        if isinstance(r, str) and r == STRUCT_NULL:
-            assert leaf.get("struct_opt")
-            rep.append(0), de.append(0)
+        if is_struct_null(r):
+            assert struct_null_level(r) < off
+            rep.append(0), de.append(struct_null_level(r))
         else:
             r1, d1, v1 = shred([r], leaf["row_opt"], leaf["elem_opt"])
-            rep += r1
+            rep += [x * cont for x in r1]
             de += [d + off for d in d1]
             vals += v1
     return rep, de, vals
@@ -320,19 +340,21 @@ def leaf_columns(col):
         # an ordinary REQUIRED primitive column next to the nested ones (no levels at all)
         return [dict(path=[col["name"]], row_opt=False, elem_opt=False, ptype=col["ptype"], which="flat")]
     # a column "s.NAME" with col["struct"] = {"name": "s", "opt": bool} is the LIST / MAP group NAME inside the struct group s
-    st = col.get("struct")
-    top = [st["name"], col["name"].split(".", 1)[1]] if st else [col["name"]]
-    so = (bool(st["opt"]) if st else None)
+    sts = col_structs(col)
+    top = [x["name"] for x in sts] + [col["name"].split(".", len(sts))[-1]] if sts else [col["name"]]
+    so = ((bool(sts[0]["opt"]) if len(sts) == 1 else None) if sts else None)
+    sopts = [bool(x["opt"]) or bool(x.get("rep")) for x in sts] if sts else None
+    mrep = 1 + sum(1 for x in sts if x.get("rep")) + (1 if col.get("top_rep") else 0)
     if col["kind"] == "list":
         # LogicalTypes.md: the middle group "list" and the leaf "element" are the recommended names; older writers
         # use others (bag/array_element, array/item) and readers must not depend on them
         return [dict(path=top + [col.get("group_name", "list"), col.get("elem_name", "element")], row_opt=col["row_opt"],
-                     elem_opt=col["elem_opt"], ptype=col["ptype"], which="elem", struct_opt=so)]
+                     elem_opt=col["elem_opt"], ptype=col["ptype"], which="elem", struct_opt=so, struct_opts=sopts, max_rep=mrep)]
     g = col.get("group_name", "key_value")          # "map" in files of older writers
     return [dict(path=top + [g, "key"], row_opt=col["row_opt"], elem_opt=False,
-                 ptype=col["key_ptype"], which="key", struct_opt=so),
+                 ptype=col["key_ptype"], which="key", struct_opt=so, struct_opts=sopts, max_rep=mrep),
             dict(path=top + [g, "value"], row_opt=col["row_opt"],
-                 elem_opt=col["elem_opt"], ptype=col["ptype"], which="value", struct_opt=so)]
+                 elem_opt=col["elem_opt"], ptype=col["ptype"], which="value", struct_opt=so, struct_opts=sopts, max_rep=mrep)]
 
 
 def leaf_rows(col, leaf, rows):
@@ -340,7 +362,7 @@ def leaf_rows(col, leaf, rows):
     if col["kind"] in ("list", "flat"):
         return rows
     k = 0 if leaf["which"] == "key" else 1
-    return [r if (r is None or r == STRUCT_NULL) else [kv[k] for kv in r] for r in rows]
+    return [r if (r is None or is_struct_null(r)) else [kv[k] for kv in r] for r in rows]
 
 
 def schema_elements(cols):
@@ -354,11 +376,15 @@ def schema_elements(cols):
             out.append(pt.SchemaElement(name=c["name"], type=t, converted_type=ct, repetition_type=REQ, i32=1))
             continue
         top = OPT if c["row_opt"] else REQ
+        if c.get("top_rep"):
+            top = REP       # not a legal LIST/MAP (LogicalTypes.md); used by the refusal cases only
         gname = c["name"]
-        if c.get("struct"):
-            out.append(pt.SchemaElement(name=c["struct"]["name"], repetition_type=OPT if c["struct"]["opt"] else REQ,
+        sts = col_structs(c)
+        for st in sts:
+            out.append(pt.SchemaElement(name=st["name"], repetition_type=REP if st.get("rep") else (OPT if st["opt"] else REQ),
                                         num_children=1, i32=1))
-            gname = c["name"].split(".", 1)[1]
+        if sts:
+            gname = c["name"].split(".", len(sts))[-1]
         if c["kind"] == "list":
             t, ct = PTYPES[c["ptype"]]
             out.append(pt.SchemaElement(name=gname, repetition_type=top, num_children=1,
@@ -406,7 +432,7 @@ def write_file(path, cols, row_groups):
                     max_rep, max_def = 0, 0
                     rep, de, vals = [0] * len(rows), [0] * len(rows), list(rows)
                 else:
-                    max_rep = 1
+                    max_rep = leaf.get("max_rep", 1)
                     rep, de, vals = shred_leaf(lrows, leaf)
                     max_def = max_def_leaf(leaf)
                 pages = chunk_pages(rep, de, vals, max_def, lay["cuts"])
@@ -452,7 +478,7 @@ def write_file(path, cols, row_groups):
                     dictionary_page_offset=dict_off, total_uncompressed_size=usize_total,
                     total_compressed_size=size, i32list=[1, 4])
                 chunks.append(pt.ColumnChunk(file_offset=start, meta_data=cmd))
-                wrg.append(dict(col=c["name"], which=leaf["which"], row_opt=leaf["row_opt"], struct_opt=leaf.get("struct_opt"),
+                wrg.append(dict(col=c["name"], which=leaf["which"], row_opt=leaf["row_opt"], struct_opt=leaf.get("struct_opt"), struct_opts=leaf.get("struct_opts"),
                                 elem_opt=leaf["elem_opt"], max_def=max_def, rep=rep, de=de, vals=vals,
                                 pages=[(r, d, v) for (r, d, v, _) in pages], version=lay["version"],
                                 dictionary=bool(lay["dictionary"])))
